@@ -17,11 +17,63 @@ const MV: [(&str, Ver); 8] = [
     ("POST", Ver::V10),
     ("PUT", Ver::V11),
 ];
-const REQ_CONN: [&[&[u8]]; 4] = [&[], &[b"close"], &[b"keep-alive"], &[b"keep-alive", b"close"]];
+const REQ_CONN: [&[&[u8]]; 5] = [&[], &[b"close"], &[b"keep-alive"], &[b"keep-alive", b"close"], &[b"abcde"]];
 const HS: [&str; 5] = ["none", "got-100", "gave-up", "refused-bare", "refused-with-fields"];
 const STATUS: [u16; 5] = [200, 302, 404, 307, 102];
 const FRAMING: [&str; 4] = ["length-3", "chunked", "bare", "length-0"];
-const RESP_CONN: [&[&[u8]]; 5] = [&[], &[b"close"], &[b"keep-alive"], &[b"keep-alive", b"close"], &[b"close", b"keep-alive"]];
+const RESP_CONN: [&[&[u8]]; 6] = [&[], &[b"close"], &[b"keep-alive"], &[b"keep-alive", b"close"], &[b"close", b"keep-alive"], &[b"xxxxx"]];
+
+/// Framing cells the statement of C06 leaves open (3xx with only a non-chunked Transfer-Encoding,
+/// HTTP/1.0 3xx with only `chunked`): whatever the flow decides there, *if it reports the body as
+/// close-delimited* the connection must close, at Redirect and at Cleanup alike.
+fn open_framing_cell(idx: u64, rec: &mut Rec) {
+    let mut x = idx as usize;
+    let mut take = |n: usize| {
+        let v = x % n;
+        x /= n;
+        v
+    };
+    let method = ["GET", "POST", "DELETE"][take(3)];
+    let status = [301u16, 302, 303, 307, 308, 399][take(6)];
+    let (http10, te): (bool, &[u8]) = [(false, &b"gzip"[..]), (false, &b"identity"[..]), (true, &b"chunked"[..]), (false, &b"chunked, gzip"[..])][take(4)];
+    let with_location = take(2) == 1;
+    let mut head = RespHead::new(http10, status);
+    head.fields.push(Field::new("Transfer-Encoding", te));
+    if with_location {
+        head.fields.push(Field::new("Location", b"/n"));
+    }
+    let mut stream = head.render();
+    stream.extend_from_slice(b"some bytes until the connection closes");
+    let cfg = ReqCfg::new(method, "http://h.test/x");
+    let flow = match build_flow(&cfg) {
+        Ok(f) => f,
+        Err(e) => return rec.fail("C10/setup", format!("{:?}", e)),
+    };
+    let body: &[u8] = if needs_body(method) { b"abc" } else { b"" };
+    let mut d = Driver::new(flow, &cfg, body, &stream, Scen::Decide, Sched::big());
+    d.hostile = true;
+    let end = d.run(rec);
+    rec.ev(|| format!("{} <- {} {} TE={:?}: {:?} mode={:?} verdicts={:?}", method, status, if http10 { "HTTP/1.0" } else { "HTTP/1.1" }, crate::json::esc(te), end, d.body_mode, d.verdicts));
+    if end != Step::Done {
+        rec.cov("open-framing/not-completed");
+        return;
+    }
+    let close_delimited = d.body_mode == Some(Mode::Close);
+    rec.cov(&format!("open-framing/{}", if close_delimited { "reported-close-delimited" } else { "other" }));
+    if close_delimited {
+        for (state, mc, why) in &d.verdicts {
+            if !*mc || why.is_none() {
+                return rec.fail(
+                    "C10/close-delimited-body-offered-for-reuse",
+                    format!("{} {} TE={:?}: the flow reported a close-delimited body, yet at {} must_close={} reason={:?}", method, status, crate::json::esc(te), state, mc, why),
+                );
+            }
+        }
+    }
+    if d.verdicts.len() == 2 && d.verdicts[0].1 != d.verdicts[1].1 {
+        rec.fail("C10/redirect-and-cleanup-disagree", format!("{:?}", d.verdicts));
+    }
+}
 
 pub fn check_verdict(d: &Driver, truth: &Truth, rec: &mut Rec, prefix: &str) -> bool {
     if d.verdicts.is_empty() {
@@ -67,12 +119,12 @@ fn cell(idx: u64, seed: u64, variant: u64, rec: &mut Rec) {
         v
     };
     let (method, ver) = MV[take(8)];
-    let req_conn = REQ_CONN[take(4)];
+    let req_conn = REQ_CONN[take(5)];
     let hs = HS[take(5)];
     let http10_resp = take(2) == 1;
     let status = STATUS[take(5)];
     let framing = FRAMING[take(4)];
-    let resp_conn = RESP_CONN[take(5)];
+    let resp_conn = RESP_CONN[take(6)];
     let body_method = needs_body(method);
     if !body_method && hs != "none" {
         return;
@@ -132,6 +184,7 @@ fn cell(idx: u64, seed: u64, variant: u64, rec: &mut Rec) {
             _ => BodyPlan::Bare,
         },
         close_data: b"until close".to_vec(),
+        extra_interim: 0,
     };
     let (stream, truth) = match ex.render() {
         Some(v) => v,
@@ -257,14 +310,14 @@ fn partial_redirect_cell(idx: u64, rec: &mut Rec) {
     }
 }
 
-const CELLS: u64 = 8 * 4 * 5 * 2 * 5 * 4 * 5;
+const CELLS: u64 = 8 * 5 * 5 * 2 * 5 * 4 * 6;
 
 impl Property for P {
     fn id(&self) -> &'static str {
         "C10"
     }
     fn rule(&self) -> String {
-        "exhaustive product realising the five close conditions: (method, request version) x request Connection {absent, close, keep-alive, two fields} x Expect handshake {none, 100 received, gave up, refused bare, refused with fields} x response version x status {200, 302, 404, 307, 102} x framing {length, chunked, bare, zero length} x response Connection {absent, close, keep-alive, two fields either order}; every cell is a full exchange driven to Cleanup (through Redirect for 3xx), once with one-shot I/O and again under random segmentation schedules; must_close_connection()/close_reason() at Redirect and Cleanup are compared with the disjunction computed from the description. class = condition bit-vector x exit path.".into()
+        "exhaustive product realising the five close conditions: (method, request version) x request Connection {absent, close, keep-alive, two fields, some other token} x Expect handshake {none, 100 received, gave up, refused bare, refused with fields} x response version x status {200, 302, 404, 307, 102} x framing {length, chunked, bare, zero length} x response Connection {absent, close, keep-alive, two fields either order, some other token}; every cell is a full exchange driven to Cleanup (through Redirect for 3xx), once with one-shot I/O and again under random segmentation schedules; must_close_connection()/close_reason() at Redirect and Cleanup are compared with the disjunction computed from the description. class = condition bit-vector x exit path.".into()
     }
     fn assumptions(&self) -> Vec<String> {
         vec![
@@ -277,12 +330,15 @@ impl Property for P {
         vec![
             Workload::new("oneshot", CELLS, true, "every cell, one-shot I/O"),
             Workload::new("scheduled", CELLS * tier.pick(2, 60), false, "every cell again under seeded random I/O schedules"),
+            Workload::new("open-framing-cells", 3 * 6 * 4 * 2, true, "3xx whose framing the statement leaves open: if the flow calls the body close-delimited it must close"),
             Workload::new("partial-redirect-opt-in", 3 * 4 * 4 * 2 * 4, true, "allow_partial_redirect(true): truncated 3xx heads with their own Connection fields; the lost boundary must force close"),
         ]
     }
     fn run_case(&self, wl: &str, idx: u64, seed: u64, rec: &mut Rec) {
         if wl == "oneshot" {
             cell(idx, seed, 0, rec)
+        } else if wl == "open-framing-cells" {
+            open_framing_cell(idx, rec)
         } else if wl == "partial-redirect-opt-in" {
             partial_redirect_cell(idx, rec)
         } else {
@@ -290,7 +346,7 @@ impl Property for P {
         }
     }
     fn floors(&self, _tier: Tier) -> Vec<(String, u64)> {
-        let mut v = vec![("partial-redirect/accepted/*".to_string(), 50)];
+        let mut v = vec![("partial-redirect/accepted/*".to_string(), 50), ("open-framing/*".to_string(), 100)];
         // all 32 vectors must occur on the Cleanup path, the 16 without close-delimited on Redirect
         for m in 0..32u32 {
             let id: String = (0..5).map(|i| if m & (1 << i) != 0 { '1' } else { '0' }).collect();
